@@ -841,12 +841,16 @@ func c18Unmarshal(e *Env) {
 		r.Undecide("R18.5", key, "anchor not found")
 		return
 	}
-	// the stored value *v = Version(s) where s is the asserted string, and IsValid("v"+s) guards it
+	// the stored value *v = Version(s) where s is the asserted string, and IsValid("v"+s) guards it; the work
+	// may be done by helpers of the package (a converter that returns (Version, error), a validity predicate)
+	unit := unitFns(fn, 2)
 	var assert *ssa.TypeAssert
-	for _, b := range fn.Blocks {
-		for _, ins := range b.Instrs {
-			if ta, ok := ins.(*ssa.TypeAssert); ok && ta.CommaOk && isStringType(ta.AssertedType) {
-				assert = ta
+	for _, f := range unit {
+		for _, b := range f.Blocks {
+			for _, ins := range b.Instrs {
+				if ta, ok := ins.(*ssa.TypeAssert); ok && ta.CommaOk && isStringType(ta.AssertedType) {
+					assert = ta
+				}
 			}
 		}
 	}
@@ -871,29 +875,63 @@ func c18Unmarshal(e *Env) {
 			if iff, ok := ref.(*ssa.If); ok {
 				fb := iff.Block().Succs[1]
 				for _, ins := range fb.Instrs {
-					if ret, ok := ins.(*ssa.Return); ok && !isNilConst(ret.Results[0]) {
-						okErr = true
+					if ret, ok := ins.(*ssa.Return); ok {
+						for _, rv := range ret.Results {
+							if isErrorType(rv.Type()) && !isNilConst(rv) {
+								okErr = true
+							}
+						}
 					}
 				}
 			}
 		}
 	}
 	r.Check(okErr, "R18.5", key+"#string-only", "a version that is not a YAML string is a parse error")
+	// "v"+s reaches semver.IsValid, directly or as the argument of a one-line predicate that prefixes its parameter
+	vPlus := func(v ssa.Value, of ssa.Value) bool {
+		bo, ok := v.(*ssa.BinOp)
+		if !ok || bo.Op != token.ADD || bo.Y != of {
+			return false
+		}
+		s, ok := constString(bo.X)
+		return ok && s == "v"
+	}
 	okValid, okStore := false, false
-	for _, b := range fn.Blocks {
-		for _, ins := range b.Instrs {
-			switch x := ins.(type) {
-			case *ssa.Call:
-				if callName(&x.Call) == semverPkg+".IsValid" {
-					if bo, ok := x.Call.Args[0].(*ssa.BinOp); ok && bo.Op == token.ADD && bo.Y == sval {
-						if s, ok := constString(bo.X); ok && s == "v" {
+	for _, f := range unit {
+		for _, b := range f.Blocks {
+			for _, ins := range b.Instrs {
+				switch x := ins.(type) {
+				case *ssa.Call:
+					if callName(&x.Call) == semverPkg+".IsValid" {
+						if vPlus(x.Call.Args[0], sval) {
 							okValid = true
 						}
+						// inside a predicate: IsValid("v"+param), and the predicate is called with s
+						if bo, ok := x.Call.Args[0].(*ssa.BinOp); ok {
+							if prm, isP := bo.Y.(*ssa.Parameter); isP && vPlus(x.Call.Args[0], prm) {
+								for _, g := range unit {
+									for _, c := range callsIn(g, false) {
+										if c.Common().StaticCallee() == f {
+											for i, a := range c.Common().Args {
+												if a == sval && i < len(f.Params) && f.Params[i] == prm {
+													okValid = true
+												}
+											}
+										}
+									}
+								}
+							}
+						}
 					}
-				}
-			case *ssa.Store:
-				if ct, ok := x.Val.(*ssa.ChangeType); ok && ct.X == sval {
-					okStore = true
+				case *ssa.ChangeType:
+					if x.X == sval {
+						for _, ref := range *x.Referrers() {
+							switch ref.(type) {
+							case *ssa.Store, *ssa.Return:
+								okStore = true
+							}
+						}
+					}
 				}
 			}
 		}
